@@ -10,7 +10,8 @@
 
    Aliasing: cipher.Stream requires dst and src to "overlap entirely or not at all".  The pointer tests
    of XORKeyStream are modelled by the class of the call:
-     InPlace  : &dst[0] == &src[0]            -> both tests false  -> slow path for every length
+     InPlace  : &dst[0] == &src[0] (dst may extend beyond src in the same array)
+                                              -> both tests false  -> slow path for every length
      Disjoint : no common byte, len dst >= len src (dst may be longer; either order in memory)
                                               -> first test true   -> fast path iff len src > 2*blockSize,
                                                  second test (de && ranges intersect) false -> plain loop.
@@ -173,11 +174,12 @@ Fixpoint fast_enc (ivb view rest : list N) : option (list N * list N) :=
 
 Inductive alias := InPlace | Disjoint.
 
-(* XORKeyStream(dst, src).  dst0 = initial contents of dst for a Disjoint call (ignored when InPlace,
-   where dst IS src).  Returns the new state and the final contents of dst. *)
+(* XORKeyStream(dst, src).  dst0 = initial contents of dst for a Disjoint call; for an InPlace call dst
+   starts at src[0] and dst0 is what follows src inside dst (normally nothing: dst IS src).
+   Returns the new state and the final contents of dst. *)
 Definition xor_key_stream (de : bool) (st : state) (al : alias) (src dst0 : list N)
   : option (state * list N) :=
-  let dst := match al with InPlace => src | Disjoint => dst0 end in
+  let dst := match al with InPlace => src ++ dst0 | Disjoint => dst0 end in
   match src with
   | [] => Some (st, dst)                                            (* len(src) == 0: return *)
   | _ :: _ =>
@@ -220,7 +222,8 @@ Fixpoint trace (de : bool) (st : state) (calls : list call) : list (option (stat
 
 (* what the specification says the same history must produce: per call, the reference transformation
    of src continued from the register left by the previous calls, followed by the untouched rest of dst *)
-Definition dst_of (c : call) : list N := match c_alias c with InPlace => c_src c | Disjoint => c_dst c end.
+Definition dst_of (c : call) : list N :=
+  match c_alias c with InPlace => c_src c ++ c_dst c | Disjoint => c_dst c end.
 Definition call_ok (c : call) : Prop := length (c_src c) <= length (dst_of c).
 Fixpoint spec_outs (de : bool) (reg : list N) (calls : list call) : list (list N) :=
   match calls with
@@ -264,3 +267,11 @@ Definition toyE (k : N) (l : list N) : list N :=
 Definition toy_trace (k : N) (de : bool) (iv0 : list N) (calls : list call) :=
   trace (toyE k) de (new_state iv0) calls.
 Definition toy_ref (k : N) (de : bool) (iv0 : list N) (m : list N) := cfb (toyE k) de iv0 m.
+
+(* example data for the non-vacuity Examples of Props/C10.v: a slow in-place call whose dst extends beyond
+   src, a fast disjoint call into a longer dst, a slow disjoint call *)
+Definition ex_iv : list N := map N.of_nat (seq 1 16).
+Definition ex_calls : list call :=
+  [ {| c_alias := InPlace;  c_src := map N.of_nat (seq 10 5);  c_dst := [8; 8]%N |};
+    {| c_alias := Disjoint; c_src := map N.of_nat (seq 20 40); c_dst := repeat 9%N 43 |};
+    {| c_alias := Disjoint; c_src := map N.of_nat (seq 70 20); c_dst := repeat 7%N 20 |} ].
